@@ -84,14 +84,14 @@ CHECKS['C02'] = dict(
     title='Evaluation returns the value of the stored piecewise polynomial',
     level='exploration',
     technique='bounded-exhaustive enumeration of (grid, window, order, coefficient pattern, abscissa) on the real evaluation code with an exact rational scalar against explicit-power evaluation',
-    level_text='Every window of 4 grid families up to 5 (thorough 7) points, orders 0..3 (0..4), unit/zero/generic coefficient vectors and a probe set containing every grid point, interior points of every grid interval, points just outside and far outside; exact equality with the midpoint polynomial computed independently; plus supports of 17..66 (thorough ..129) grid points on both sides of powers of two (size-dependent search strategies); orders 5, 8, 11, 12, 13, 16, 20, 21 (both parities; evaluation kernels that change strategy with the number of coefficients) on two windows of a 4-point grid; and evaluation right after the data of an already evaluated spline was replaced (converting assignment, same-order assignment, +=) for every window pair and every common interval. Exhaustive within those bounds.',
+    level_text='Every window of 4 grid families up to 5 (thorough 7) points, orders 0..3 (0..4), unit/zero/generic coefficient vectors and a probe set containing every grid point, interior points of every grid interval, points just outside and far outside; exact equality with the midpoint polynomial computed independently; plus supports of 17..66 (thorough ..129) grid points on both sides of powers of two (size-dependent search strategies); orders 5, 8, 11, 12, 13, 16, 20, 21 (both parities; evaluation kernels that change strategy with the number of coefficients) on two windows of a 4-point grid; and evaluation right after the data of an already evaluated spline was replaced (converting assignment, same-order assignment, +=) for every window pair and every common interval; and around move assignment / move construction for every window pair (the target evaluates as the source did, the moved-from spline evaluates to zero and its front()/back() throw). Exhaustive within those bounds.',
     level_note='Trusted: GMP, the 20-line explicit-power oracle in checks/c02_eval.cpp. x outside the probe set is covered by the degree argument (more than order+1 probes per interval) and by probing both sides of every comparison threshold; NaN abscissae are outside the statement.',
     units=std_units('checks/c02_eval.cpp'),
     rule='cases = (grid family, n, window, order, coefficient pattern); each evaluates the spline at every probe point (counter point_evaluations). Non-trivial = coefficient vector non-zero.',
     bounds=dict(quick='4 grid families x n=2..5 x all windows x orders 0..3 x (all unit vectors, zero, 2 generic)',
                 thorough='n=2..7, orders 0..4'),
     guards=dict(classes=['x:interior', 'x:shared-gridpoint', 'x:front', 'x:back', 'x:left-outside', 'x:right-outside', 'x:interval-free',
-                         'win:interval:sub', 'win:interval:whole', 'win:point:sub', 'win:empty:sub', 'win:large', 'replaced'],
+                         'win:interval:sub', 'win:interval:whole', 'win:point:sub', 'win:empty:sub', 'win:large', 'replaced', 'moved'],
                 counters=['point_evaluations']),
     assumptions=[A_SHAPE, A_POLY],
 )
